@@ -279,14 +279,21 @@ package scheduler
 // execdec(i): decrementExecutingWorkersCount calls that started at invocation i.
 //@ ghost map execdec(ref) int zero
 //@ ghost map wakeupseen(ref) int zero
+// resorted(nil): which of the parent's two heaps the first re-sort of the
+// current step went to (1: queued children, 2: children with waiting workers);
+// the second re-sort must go to the other one, in whichever order they are made.
+//@ ghost map resorted(ref) int zero
 //@ func (*invocation).decrementExecutingWorkersCount
 //@   props C04 C06
 //@   loop 0 exit the-walk-only-ends-at-the-root: i.parent == nil
 //@   ghostset execdec[i] = old(execdec(i)) + 1
 //@   at call heapMaybeFix#1 assert every-invocation-on-the-way-up-is-stamped-before-it-is-re-sorted-in-its-parent:
-//@             i.lastOperationCompletion == bq.now && arg0 == &i.parent.queuedChildren && arg1 == i.queuedChildrenIndex
-//@   at call heapMaybeFix#2 assert re-sorted-among-the-invocations-with-waiting-workers-as-well:
-//@             arg0 == &i.parent.idleSynchronizingWorkersChildren && arg1 == i.idleSynchronizingWorkersChildrenIndex
+//@             i.lastOperationCompletion == bq.now && ((arg0 == &i.parent.queuedChildren && arg1 == i.queuedChildrenIndex) ||
+//@               (arg0 == &i.parent.idleSynchronizingWorkersChildren && arg1 == i.idleSynchronizingWorkersChildrenIndex))
+//@   at call heapMaybeFix#1 ghostset resorted[nil] = ite(arg0 == &i.parent.queuedChildren, 1, 2)
+//@   at call heapMaybeFix#2 assert re-sorted-in-the-other-heap-of-the-parent-as-well:
+//@             (resorted(nil) == 2 && arg0 == &i.parent.queuedChildren && arg1 == i.queuedChildrenIndex) ||
+//@               (resorted(nil) == 1 && arg0 == &i.parent.idleSynchronizingWorkersChildren && arg1 == i.idleSynchronizingWorkersChildrenIndex)
 
 // Starting an operation counts for, stamps and re-sorts every invocation from
 // the operation's own up to the root: ties between sibling invocations are
@@ -295,9 +302,12 @@ package scheduler
 //@   props C04
 //@   loop 0 exit the-walk-only-ends-at-the-root: i.parent == nil
 //@   at call heapMaybeFix#1 assert every-invocation-on-the-way-up-is-stamped-before-it-is-re-sorted-in-its-parent:
-//@             i.lastOperationStarted == bq.now && arg0 == &i.parent.queuedChildren && arg1 == i.queuedChildrenIndex
-//@   at call heapMaybeFix#2 assert re-sorted-among-the-invocations-with-waiting-workers-as-well:
-//@             arg0 == &i.parent.idleSynchronizingWorkersChildren && arg1 == i.idleSynchronizingWorkersChildrenIndex
+//@             i.lastOperationStarted == bq.now && ((arg0 == &i.parent.queuedChildren && arg1 == i.queuedChildrenIndex) ||
+//@               (arg0 == &i.parent.idleSynchronizingWorkersChildren && arg1 == i.idleSynchronizingWorkersChildrenIndex))
+//@   at call heapMaybeFix#1 ghostset resorted[nil] = ite(arg0 == &i.parent.queuedChildren, 1, 2)
+//@   at call heapMaybeFix#2 assert re-sorted-in-the-other-heap-of-the-parent-as-well:
+//@             (resorted(nil) == 2 && arg0 == &i.parent.queuedChildren && arg1 == i.queuedChildrenIndex) ||
+//@               (resorted(nil) == 1 && arg0 == &i.parent.idleSynchronizingWorkersChildren && arg1 == i.idleSynchronizingWorkersChildrenIndex)
 
 // A worker that leaves getNextTask is no longer listed as idle and waiting,
 // whichever way the wait ended (task, timeout, cancellation): otherwise tasks
